@@ -320,6 +320,9 @@ func (vc *VC) evalIndex(v SVal, i string, env *Env) SVal {
 	case KString:
 		return intV(vc.leafLoad(env.mem, "uint8", SInt, v.obj(), add(v.off(), i)), types.Typ[types.Uint8])
 	case KArr:
+		if v.T == nil {
+			return mkInt(sel(v.S, i))
+		}
 		return intV(sel(v.S, i), flatElem(v.T))
 	case KPtr:
 		// pointer to array
